@@ -2,6 +2,8 @@ import RjModel.Model.Parse
 import RjModel.Generated.Constants
 import RjModel.Model.Chunks
 import RjModel.Model.Frame
+import RjModel.Model.Key
+import RjModel.Model.Launch
 import RjModel.Model.ParseSettings
 import RjModel.Generated.Defaults
 open Rj
@@ -51,6 +53,24 @@ def handle (line : String) : String :=
     | some c, some its =>
       "[" ++ joinWith "," ((recvItems c (toDoer == "1") its 0).map toString) ++ "]"
     | _, _ => "bad-op"
+  | ["key", h] =>
+    match bytesOfHex h with
+    | some bs =>
+      let key := bs.map (·.toNat)
+      let back := match Key.roundTrip key with
+        | some k => hexOfBytes (k.map UInt8.ofNat)
+        | none => "err"
+      s!"fmt={hexOfString (String.ofList (Key.fmt key))} back={back}"
+    | none => "bad-op"
+  | ["setup", b, first, second, ans, scp] =>
+    let pb : Option DeployBeh := match b with | "p" => some .prompt | "e" => some .error | "k" => some .ok | "f" => some .force | _ => none
+    let pl : String → Option LaunchRes := fun
+      | "absent" => some .notPresent | "same" => some .success | "other" => some .incompatible | "broken" => some .exited | _ => none
+    match pb, pl first, pl second with
+    | some b, some f, some s2 =>
+      let t := setupComms b f s2 (ans == "1") (scp == "1")
+      s!"launches={t.launches} uploads={if t.uploads then 1 else 0} prompted={if t.prompted then 1 else 0} ok={if t.ok then 1 else 0}"
+    | _, _, _ => "bad-op"
   | ["rpd", s] =>
     match unx s with
     | some str => renderPathDesc (parsePathDesc str)
